@@ -1,15 +1,17 @@
 """C09 - reordering, renaming and MINC do not change the physics the grid describes."""
 from checks import generic
-from contracts import c09
+from contracts import c09, c09b
 
 
 def main(tier):
-    return generic.run('C09', 'other', tier, c09, c09.PROGRAMS, c09.FUNCS, 'c09_physics.py', 'physical_signature_before_after',
+    return generic.run('C09', 'other', tier, c09, c09.PROGRAMS, c09.FUNCS + c09b.FUNCS, 'c09_physics.py', 'physical_signature_before_after',
         'grids built from rectangular and shipped irregular geometries (all atmosphere types): permutations of blocks and connections with any subset reversed, one-to-one rename maps, compositions, '
         'optional data-file round trip; MINC with 2..6 fractions, 1..3 plane sets, several spacings, full / partial selection; embed; physical signature compared before / after',
         trust=('pyvc heap model: the real t2grid / t2block / t2connection objects as records, lists, dicts and sets with concrete block names and symbolic numeric contents', 'z3'),
         assume=('deductive part: a 4-block, 4-connection grid (a cycle), all 16 reversal masks, one fixed permutation; four rename maps (swap, 3-cycle, fresh names, chain)',
-                'MINC volume split and chaining, embed volume conservation, larger grids and arbitrary permutations: bounded'),
+                'MINC: the real minc() on the same grid for 2, 3 and 4 symbolic volume fractions, all blocks or two of them; minc.invert_proximity (scipy bisect) is external and returns an unconstrained pair of reals - it decides only connection distances and interface areas, which the statement does not constrain; symbolic denominators in that geometry arithmetic are assumed non-zero',
+                'embed volume conservation is proved in C08 / p_embed; larger grids, arbitrary permutations, other MINC settings: bounded'),
         explanation='clause -> evidence: reorder with any subset of connections listed in reverse keeps every block\'s volume, centre and rock type and every pair\'s interface area, permeability direction, '
                     'each block\'s own distance and nad, and a gravity cosine naming the same upper block; the lists have the requested order; the grid stays well formed: PROVED for symbolic numeric contents. '
-                    'rename_blocks with swap / cycle / chain / fresh maps loses no block and keeps the network: PROVED. MINC, embed, file round trips, real meshes: BOUNDED.')
+                    'rename_blocks with swap / cycle / chain / fresh maps loses no block and keeps the network: PROVED. The real minc() keeps each processed block\'s total volume, splits it among its continua in the requested (normalised) fractions, chains fracture -> matrix 1 -> ... -> innermost matrix, adds exactly those blocks and connections, registers the MINC rock types, leaves unprocessed blocks alone and the grid well formed: PROVED for symbolic volumes and fractions (4 programs). File round trips, real meshes, other MINC settings: BOUNDED.',
+        extra=[(c09b, c09b.PROGRAMS)])
